@@ -218,7 +218,7 @@ def fresh(x):
     if t is str:
         return "".join([x[:1], x[1:]]) if len(x) >= 2 else x
     if t is int:
-        return int(str(x)) if not -5 <= x <= 256 else x
+        return (x + 1) - 1 if not -5 <= x <= 256 else x      # (arithmetic, not str(): integers of any length)
     if t is tuple:
         return tuple(fresh(e) for e in x)
     return x
